@@ -102,7 +102,7 @@ impl Check for C11 {
         tier.pick(std::time::Duration::from_secs(120), std::time::Duration::from_secs(1200))
     }
     fn required_counters(&self, _tier: Tier) -> Vec<&'static str> {
-        vec!["pairs:leading-zero-bytes", "pairs:typed-vs-raw", "sort:not-enough-peers", "replicate-candidates-judged", "store-range-counts-judged", "farthest-after-restart-judged", "realnet:closest-peer-selections-judged"]
+        vec!["pairs:leading-zero-bytes", "pairs:typed-vs-raw", "sort:not-enough-peers", "replicate-candidates-judged", "store-range-counts-judged", "farthest-after-restart-judged"]
     }
     fn lane_cases(&self, tier: Tier) -> u64 {
         tier.pick(6, 48)
